@@ -36,7 +36,8 @@ def configs(tier, seed):
 def op_strategy(draw):
     k = draw(st.sampled_from(
         ['reg'] * 5 + ['rereg'] * 4 + ['unreg'] * 5 + ['sub'] * 3 +
-        ['resub'] * 2 + ['unsub'] * 3 + ['rebuild', 'replay', 'check']))
+        ['resub'] * 2 + ['unsub'] * 3 + ['rebuild', 'replay', 'check',
+                                         'recreate']))
     if k == 'reg':
         return ['reg', draw(reguniv.reg_key_biased(2)), draw(IDX),
                 draw(st.sampled_from(NAMES + [''])), draw(st.integers(0, 2))]
@@ -296,6 +297,13 @@ def run_case(case, cfg, out):
                 nt[0] = True
             reg.rebuild()
             out.tag('rebuild')
+        elif kind == 'recreate':
+            # what a persistent registry's __setstate__ does: a new lookup
+            # object over the stored registration data
+            reg._createLookup()
+            reg.__bases__ = reg.__bases__
+            reg._v_lookup.changed(reg)
+            out.tag('recreate')
         elif kind == 'replay':
             fresh = type(reg)()
             for args in reg.allRegistrations():
@@ -305,7 +313,7 @@ def run_case(case, cfg, out):
             if not compare(fresh, 'op %d: replay into a fresh registry' % n):
                 return
             out.tag('replay')
-        if kind in ('rebuild', 'check', 'replay') or n % 3 == 0:
+        if kind in ('rebuild', 'check', 'replay', 'recreate') or n % 3 == 0:
             if not compare(reg, 'after op %d %r' % (n, op)):
                 return
     if not compare(reg, 'end'):
